@@ -25,8 +25,14 @@ def run (j : Json) : Except String Json := do
       let ts : Option Rat ← (match fldOpt j "t_start" with
         | some .null | none => pure none
         | some v => do pure (some (← getQ v)))
-      let i := constInit ts t0
-      pure (jQs (i :: runLog f (dt / f, i) qs))
+      -- an earlier run on the same object: `initialize` keeps the grown period (`logReinit`)
+      let st0 : Rat × Rat ← (match fldOpt j "warmup" with
+        | some w => do
+          let tw ← fldQ w "t0"
+          let wq ← fldQs w "queries"
+          pure (logReinit ts (logFinal f (dt / f, constInit ts tw) wq) t0)
+        | none => pure (dt / f, constInit ts t0))
+      pure (jQs (st0.2 :: runLog f st0 qs))
     | "fixed" =>
       let l ← fldQs j "interrupts"
       let r := runFixed l 0 (t0 :: qs)
@@ -35,7 +41,14 @@ def run (j : Json) : Except String Json := do
       let scale ← fldQ j "scale"
       let f ← fldQ j "factor"
       let fuel ← fldN j "fuel"
-      let r := runGeom scale f fuel none (t0 :: qs)
+      -- `GeometricInterrupts.initialize` IS `next`: an earlier run on the same object simply continues
+      let last : Option (Rat × Nat) ← (match fldOpt j "warmup" with
+        | some w => do
+          let tw ← fldQ w "t0"
+          let wq ← fldQs w "queries"
+          pure ((runGeom scale f fuel none (tw :: wq)).getLast?.join)
+        | none => pure none)
+      let r := runGeom scale f fuel last (t0 :: qs)
       pure (Json.arr (r.map (fun o => match o with
         | none => Json.str "fuel"
         | some (q, k) => Json.arr #[jQ q, toJson k])).toArray)
@@ -57,8 +70,13 @@ def run (j : Json) : Except String Json := do
       let ts : Option Float ← (match fldOpt j "t_start" with
         | some .null | none => pure none
         | some v => do pure (some (← getF v)))
-      let i := constInit ts t0
-      pure (jFs (i :: runLog f (dt / f, i) qs))
+      let st0 : Float × Float ← (match fldOpt j "warmup" with
+        | some w => do
+          let tw ← fldF w "t0"
+          let wq ← fldFs w "queries"
+          pure (logReinit ts (logFinal f (dt / f, constInit ts tw) wq) t0)
+        | none => pure (dt / f, constInit ts t0))
+      pure (jFs (st0.2 :: runLog f st0 qs))
     | "fixed" =>
       let l ← fldFs j "interrupts"
       let r := runFixed l 0 (t0 :: qs)
